@@ -44,10 +44,75 @@ def build_changes(live, ops):
     return [[getattr(live.obj(o["name"]), live.attr_of(o)), live.new_value(o)] for o in ops]
 
 
+def slot_of(v):
+    """(container id, attribute, dict key) of an attached value"""
+    key = None
+    try:
+        if v.dict_container is not None:
+            k = v.key_in_dict
+            key = getattr(k, "id", str(k))
+    except Exception:  # noqa
+        key = "?"
+    return (v.modeling_obj_container.id, v.attr_name_in_mod_obj_container, key)
+
+
+def current_content(slots):
+    """python identity of the object currently sitting in each slot"""
+    out = {}
+    return out
+
+
+def toggle_correspondence(live, sim, word):
+    """Model D's slot store vs the real objects: after every toggle, which object sits in which slot"""
+    from harness.common import run_lean
+    prev, new = sim.all_previous_obj_linked_to_mod_obj, sim.all_new_obj_linked_to_mod_obj
+    objs_by_id = {o.id: o for o in live.rs.objs.values()}
+    slot_ids, node_ids = {}, {}
+
+    def nid(o):
+        return node_ids.setdefault(id(o), len(node_ids) + 1)
+    slots = []
+    for p in prev:
+        sl = slot_of(p)
+        slot_ids.setdefault(sl, len(slot_ids) + 1)
+        slots.append(sl)
+    if len(set(slots)) != len(slots):
+        return ["the previous objects of the simulation do not occupy pairwise distinct slots"], 0
+
+    def read(sl):
+        cont = objs_by_id.get(sl[0])
+        if cont is None:
+            return None
+        v = cont.__dict__.get(sl[1])
+        if sl[2] is not None and isinstance(v, dict):
+            for k, e in v.items():
+                if getattr(k, "id", str(k)) == sl[2]:
+                    return e
+            return None
+        return v
+    content = [[slot_ids[sl], nid(read(sl))] for sl in slots]
+    pairs = [[nid(p), nid(n)] for p, n in zip(prev, new)]
+    ans, = run_lean([{"cmd": "toggle", "content": content, "pairs": pairs, "word": word}])
+    if "bad" in ans:
+        return ["driver: " + ans["bad"]], 0
+    dis = []
+    for w, state in zip(word, ans["states"]):
+        (sim.set_updated_values if w == "set" else sim.reset_values)()
+        real = {slot_ids[sl]: node_ids.get(id(read(sl))) for sl in slots}
+        model = {k: n for k, n in state}
+        if real != model:
+            bad = next(k for k in real if real[k] != model.get(k))
+            sl = next(s_ for s_, i in slot_ids.items() if i == bad)
+            dis.append(f"after {w}: slot {sl} holds object {real[bad]} in the real system, {model.get(bad)} in the model")
+            break
+    return dis, len(word)
+
+
 def shard(args):
     seed, n, which = args
     rng = random.Random(seed)
-    out = {"cases": 0, "sims_ok": 0, "sims_raised": {}, "violations": [], "samples": [], "hashes": [], "dates": {}, "toggles": 0}
+    out = {"cases": 0, "sims_ok": 0, "sims_raised": {}, "violations": [], "samples": [], "hashes": [], "dates": {}, "toggles": 0,
+           "disagreements": [], "corr": 0}
     for i in range(n):
         spec = specgen.gen_safe_spec(rng, realsys.unit_info, allow_delete=False, allow_dumps=False)
         if i % 2 == 0:
@@ -134,9 +199,16 @@ def shard(args):
             word = [rng.choice(["set", "reset"]) for _ in range(rng.randint(1, 6))] + ["reset"]
             try:
                 with watchdog(60):
-                    for w in word:
-                        (sim.set_updated_values if w == "set" else sim.reset_values)()
-                        out["toggles"] += 1
+                    if i % 2 == 0:
+                        dis, nt = toggle_correspondence(live, sim, word)
+                        out["corr"] += 1
+                        out["toggles"] += nt
+                        for d in dis:
+                            out["disagreements"].append({"why": d, "replay": dict(replay, word=word)})
+                    else:
+                        for w in word:
+                            (sim.set_updated_values if w == "set" else sim.reset_values)()
+                            out["toggles"] += 1
                 if snapshot.diff(before, snapshot.deep(live.rs.objs)):
                     out["violations"].append({"signature": "C05:toggles-do-not-return-to-baseline", "detail": f"word {word}: {snapshot.diff(before, snapshot.deep(live.rs.objs))[:3]}",
                                               "replay": dict(replay, word=word)})
